@@ -173,6 +173,40 @@ def trend_obligations():
                TREND_THEOREMS, TREND_IMPORTS)
 
 
+TREND_METHODS_FUNCS = ["Trend.predict", "Trend.jacobian", "Trend.fit",
+                       (os.path.join("verde", "coordinates.py"), "get_region"),
+                       (os.path.join("verde", "base", "utils.py"), "n_1d_arrays")]
+TREND_METHODS_THEOREMS = ["src_Trend_predict_bcast", "src_Trend_predict_eq", "src_Trend_predict_scalar_east",
+                          "src_Trend_predict_scalar_north", "src_Trend_predict_unfitted", "src_Trend_jacobian_eq",
+                          "src_Trend_jacobian_shapes", "src_Trend_fit_eq", "src_Trend_fit_rejects"]
+TREND_METHODS_IMPORTS = "From Verde Require Import Model.Trend Proofs.TrendProofs Proofs.PyLiteBridge."
+
+
+def c03_obligations():
+    """verde/trend.py: polynomial_power_combinations (as trend_obligations) and, in the same generated file,
+    Trend.predict / Trend.jacobian against trend_predict / trend_jacobian of Model/Trend.v, with the callee
+    polynomial_power_combinations instantiated by its serialised source, and the glue of Trend.fit (its callees
+    Trend.jacobian and get_region instantiated by their serialised sources, check_fit_input and least_squares
+    arbitrary functions) (harness/pylite_trend_methods.v.tmpl)"""
+    return tie("TrendSrc", os.path.join("verde", "trend.py"), TREND_FUNCS + TREND_METHODS_FUNCS,
+               ["pylite_trend.v.tmpl", "pylite_trend_methods.v.tmpl"], TREND_THEOREMS + TREND_METHODS_THEOREMS,
+               TREND_METHODS_IMPORTS)
+
+
+LSQ_FUNCS = ["least_squares"]
+LSQ_THEOREMS = ["src_least_squares_eq", "src_least_squares_minimises"]
+LSQ_IMPORTS = ("From Verde Require Import Lib.LinAlgQ Model.LeastSquares Proofs.LeastSquaresProofs "
+               "Proofs.PyLiteBridge.")
+
+
+def lsq_obligations():
+    """verde/base/least_squares.py least_squares (property C02): its glue against the code path of
+    Model/LeastSquares.v (scaled_matrix / unscale), the scikit-learn objects by specification; to hook it:
+    `obligations = pylite_tie.lsq_obligations` in harness/c02.py"""
+    return tie("LsqSrc", os.path.join("verde", "base", "least_squares.py"), LSQ_FUNCS, "pylite_lsq.v.tmpl",
+               LSQ_THEOREMS, LSQ_IMPORTS)
+
+
 CV_FUNCS = [(os.path.join("verde", "base", "base_classes.py"), "BaseBlockCrossValidator.__init__"),
             "BlockKFold.__init__", "BlockShuffleSplit.__init__"]
 CV_THEOREMS = ["src_BaseBlockCrossValidator_init_eq", "src_BlockKFold_init_eq", "src_BlockShuffleSplit_init_eq"]
